@@ -22,10 +22,10 @@ CLAIMED = {
  "C08": ("Many open-transfer-close cycles on one socket pair against max_live_vsocks 1-4 with loss concentrated on closing packets, RESET, cancel, suspend, partitions; oracles: task ends within B(config) of the application letting go, table size == live tasks, silence after task end, no spurious TooManyActiveConnections, cancellation ends all tasks at that instant and every call on a stream half pending at, or made after, the cancellation returns. Also run on the listener/connectors family of C13 (abandoned accepts).",
          TRUST + "Obligation only for the side whose application let go (or failed). Known finding F6.",
          SIM + ": seeded search over connection life cycles, probe (task create/drop, table size) + wire + API oracles", "DESIGN.md §3 C08"),
- "C11": ("(i) every datagram emitted in every run parsed by an independent BEP-29 parser incl. connection-id-owed-to-direction; (ii) library header codec round-trips every emitted header byte for byte; (iii) differential accept/reject between the socket's own verdict (hook H3) and the reference parser on every delivered datagram incl. seeded corruptions (bit flips in type/version/extension bytes/header fields, truncation, garbage, payload toggling, unknown extensions); unknown extensions must not move the payload boundary (C01 oracle under extension insertion).",
+ "C11": ("(i) every datagram emitted in every run parsed by an independent BEP-29 parser incl. connection-id-owed-to-direction; (ii) library header codec round-trips every emitted header byte for byte; (iii) differential accept/reject between the socket's own verdict (hook H3) and the reference parser on every delivered datagram incl. seeded corruptions (bit flips in type/version/extension bytes/header fields, truncation, garbage, payload toggling, unknown extensions); unknown extensions must not move the payload boundary (C01 oracle under extension insertion); (iv) scripted-sender world: what every serialised selective ACK says equals what the endpoint holds, incl. holes followed by 33-66 packets (bitmap lengths across the 32- and 64-bit boundaries).",
          TRUST + "NOT claimed: totality over all byte strings by structural enumeration (a pure function of its input; only the population the simulated network delivers is covered).",
          SIM + ": seeded corruption faults on the simulated wire, differential parser oracle", "DESIGN.md §3 C11"),
- "C14": ("Duplex transfers over size-black-holing / EMSGSIZE paths at every link MTU / path MTU / address family, asymmetric link MTUs, loss restricted to non-probe datagrams; oracles: no datagram above the configured link MTU, at most one oversized probe and it is the newest segment, stream integrity on the black-holing path, convergence to the largest fitting payload within a logarithmic number of probes (loss-free-for-probes family).",
+ "C14": ("Duplex transfers over size-black-holing / EMSGSIZE paths at every link MTU / path MTU / address family, asymmetric link MTUs, loss restricted to non-probe datagrams; oracles: no datagram above the configured link MTU, at most one oversized probe and it is the newest segment, stream integrity on the black-holing path, convergence to the largest fitting payload within a logarithmic number of probes (loss-free-for-probes family); a probe is never given up in the poll that handled an acknowledgement of new data (family with the round trip at the retransmission time-out and seeded sub-millisecond clock reads).",
          TRUST + "Convergence is judged only when probes and their ACKs are spared (a lost probe/ACK is indistinguishable from 'too big' by design). Known finding F1.",
          SIM + ": seeded search over MTU configurations and size faults, wire-size model oracle", "DESIGN.md §3 C14"),
  "C15": ("In situ: every CongestionController call made by every running connection (hook H4) in lossy duplex, black-hole and 'extremes' families (0 ms and multi-second RTT, hours-long suspend jumps, long back-off chains, zero/tiny peer windows, MSS steps) is checked: bounds, finite values, loss reaction and ssthresh = max(0.7 w, 2 mss), slow-start growth <= acked bytes, MSS change keeps bytes.",
@@ -49,7 +49,7 @@ CLAIMED = {
  "C17": ("Scripted peer in both roles drives every teardown and handshake corner (SYN-ACK retry and give-up, FIN before/after data, simultaneous close, FIN loss, RESET in every state, duplicate SYN, data after FIN, hostile acknowledgement numbers) plus duplex close races; oracles over wire + API + end-of-poll state: legal state sequence, SYN-ACK retries bounded, FIN only after all data was sent and numbered after it, FIN acknowledged only in sequence, RESET surfaces as an error and silences the endpoint, LastAck waits (or not) as configured; while the endpoint's FIN is out and unacknowledged its retransmission timer is armed at the end of every poll, and a FIN that is due (application closed, nothing left to send or acknowledge) is sent in that poll.",
          TRUST + "Rules that need a well-behaved peer are gated on the script not being hostile. A RESET that reaches a connection whose close handshake is complete is moot. Known finding F29 (a probe re-cut after the FIN was sent takes the FIN's number; thorough tier).",
          SIM + ": scripted-peer teardown histories, state-sequence oracle", "DESIGN.md §3 C17"),
- "C18": ("Scripted receiver with seeded ACK timing and windows against seeded small-write patterns, both Nagle settings; oracles: (on) no first transmission smaller than the usable segment size while earlier data is un-acknowledged unless the window limits it, held bytes leave at the instant the pipe drains; (off) nothing stays un-segmented at the end of a poll unless window / congestion control / a probe / recovery holds it.",
+ "C18": ("Scripted receiver with seeded ACK timing and windows (in the Nagle family it also sends data of its own, so the endpoint owes acknowledgements) against seeded small-write patterns, both Nagle settings; oracles: (on) no first transmission smaller than the usable segment size while earlier data is un-acknowledged unless the window limits it, held bytes leave at the instant the pipe drains; (off) nothing stays un-segmented at the end of a poll unless window / congestion control / a probe / recovery holds it.",
          TRUST + "Usable segment size = min(what the wire proves, the sender's own segment size from hook H2). Known finding F21 (segments pre-cut to a stale window).",
          SIM + ": scripted-peer ACK timing, wire oracle on first-transmission sizes", "DESIGN.md §3 C18"),
  "C19": ("Scripted receiver that acknowledges slowly, in bursts, selectively or not at all, against writers with seeded initial/maximum transmit-buffer sizes (tiny rings, growth steps, wrapped rings); oracles: accepted - acknowledged bytes <= max(initial, maximum), ring capacity <= limit, a blocked write completes at the instant an ACK frees space, every payload byte on the wire equals the written stream at its offset (growth keeps order). Shapes include a peer whose acknowledgements ride only on retransmitted copies of its own data packet, and a writer that abandons a blocked write and polls again through a fresh waker.",
